@@ -109,10 +109,25 @@ def growth_case(rng, d, cid, tier):
     return {'kind': kind, 'g': g, 'ops': ops, 'images': None, 'flat': None, 'tail': tail}
 
 
+def gen_growth_sim(rng, d, cid):
+    """growth histories small enough for the device model (<= 300 clusters): the model follows the library through
+    refcount-block and L1 growth (absorbed as `grow` steps of Model/Dev.v, theorems in Props/C12.v)"""
+    for _ in range(20):
+        gc = growth_case(rng, d, cid, 'quick')
+        if gc is None or gc['kind'] not in ('refblock', 'l1') or gc['tail']:
+            continue
+        if gc['g'].size >> gc['g'].cb > 280:
+            continue
+        return gc['g'], gc['ops'], gc['images'], False, False
+    g = hist.Geom(9, 6, 150 << 9, 9, (9, 4 << 9), (9, 4 << 9), punch=1)
+    ops = [('W', c * 512, 512 * 3, c + 1) for c in range(0, 147, 3)] + [('F',)]
+    return g, ops, None, False, False
+
+
 def run(tier, seed, replay):
     t = qv.Timer()
     rng = qv.Rng(seed)
-    gate = {'ok': True, 'obligations': 0, 'discharged': 0, 'failed': None, 'axioms': [], 'checker_cmd': '', 'gen': {}}
+    gate = common.proof_gate('C12', ['Model/Dev.v', 'Proofs/DevProps.v', 'Props/C12.v'])
     rc, out = qv.harness_build()
     if rc != 0:
         print(out[-3000:])
@@ -139,6 +154,37 @@ def run(tier, seed, replay):
         if fs:
             f = fs[0]
             finds.append((f[0], c, f[2]))
+    # part B: crash states inside the growth sequences (C04's judgement: discipline theorem + sampled crash images)
+    cstats = collections.Counter()
+    dcr = qv.workdir('c12cr')
+    ccases = []
+    for k in range(10 if tier == 'quick' else 80):
+        cid = 'c12c_%d' % k
+        gc = None
+        for _ in range(20):
+            gc = growth_case(rng, dcr, cid, tier)
+            if gc is not None and gc['kind'] in ('refblock', 'l1', 'tail') and gc['g'].size >> gc['g'].cb <= 400 and (not gc['tail'] or gc['tail'][0] <= 64 * gc['g'].cs):
+                break
+            gc = None
+        if gc is None:
+            continue
+        g = gc['g']
+        lines = [hist.op_line(o) for o in gc['ops'] if o[0] != 'R'] + ['L lg']
+        opt = 'opt %spunch=%d' % (('tail=%d:%d ' % gc['tail']) if gc['tail'] else '', g.punch)
+        img = '\n'.join('image file ' + p for p in gc['images']) if gc['images'] else 'image format %d %d %d 512' % (g.size, g.cb, g.ro)
+        text = 'case %s\n%s\n%s\nX init\nopen %s\n%s\nend\n' % (cid, img, opt, g.params(), '\n'.join(lines))
+        ccases.append({'cid': cid, 'g': g, 'ops': gc['ops'], 'text': text, 'kind': gc['kind'] + '-crash', 'tail': gc['tail']})
+    cobs = seqrun.run_cases_text(dcr, [(c['cid'], c['text']) for c in ccases], timeout=900)
+    for c in ccases:
+        for (cls, cc, desc, data) in crash.safety_finds(c, dcr, rng, 150 if tier == 'quick' else 600, cstats, max_points=(40 if tier == 'quick' else 150),
+                                                          verdict=('safe_sl1' if c['kind'].startswith('l1') else 'safe')):
+            finds.append((cls, c, desc))
+    # correspondence of the device model (whose growth theorems are Props/C12.v) with the library on growth histories
+    import devsim
+    sfinds, sstats, sd = devsim.run_sim(rng, 12 if tier == 'quick' else 120, tag='c12sim', gen=gen_growth_sim)
+    for (cls, scid, sdesc, stext) in sfinds:
+        finds.append(('model-' + cls, {'cid': scid, 'kind': 'model', 'tail': None, 'g': hist.Geom(9, 4, 512, 9, (9, 1024), (9, 1024)), 'text': stext}, sdesc))
+    shutil.rmtree(sd, ignore_errors=True)
     violations, known = [], []
     kfs = [f for f in qv.known_findings().get('findings', []) if f.get('property') == 'C12']
     seen = collections.Counter()
@@ -157,10 +203,11 @@ def run(tier, seed, replay):
         print('  finding [%s] %s [%s]: %s' % (cls, c['cid'], c['g'].desc(), full[:360]))
     shutil.rmtree(d, ignore_errors=True)
     shutil.rmtree(d0, ignore_errors=True)
+    shutil.rmtree(dcr, ignore_errors=True)
     cov = {'evaluations': len(cases), 'distinct_nontrivial': qv.distinct_nontrivial([c['text'] for c in cases]), 'nontrivial_rule': 'distinct operation scripts with at least one write',
            'rule': 'histories crossing refcount-block capacity (2-5 blocks), refcount-table capacity (one cluster of table entries), L1 capacity (header lists fewer entries than needed), and host files with a zero / stale tail; FlatDisk oracle, specification checker on every flushed snapshot, reopen sweep',
            'samples': [{'kind': c['kind'], 'geometry': c['g'].desc(), 'ops': [hist.op_line(o) for o in c['ops'][:6]]} for c in cases[:3]],
-           'distribution': dict(kinds), 'findings_by_class': dict(seen)}
+           'distribution': dict(kinds), 'model_correspondence': {k: v for k, v in sstats.items()}, 'crash_part': dict(cstats), 'findings_by_class': dict(seen)}
     return common.finish('C12', tier, seed, 'exploration', gate, cov, t, violations, known,
                          ['crash points inside the growth sequence are explored by C04/C05 machinery only for refblock growth (their histories use 512-byte clusters); table relocation is covered functionally here'],
                          'Growth histories on cheap geometries judged by the FlatDisk oracle, the extracted specification checker and reopen.')
